@@ -1244,16 +1244,16 @@ void XMLScanner::scanProlog()
             {
                 //  Ok, it could be the xml decl, a comment, the doc type line,
                 //  or the start of the root element.
+                //  Remember whether we are at line 1, col 1: if not, a decl
+                //  found here is not the first text, so its invalid.
+                const XMLReader* curReader = fReaderMgr.getCurrentReader();
+                const bool atStart = (curReader->getLineNumber() == 1)
+                                  && (curReader->getColumnNumber() == 1);
                 if (checkXMLDecl(true))
                 {
                     // There shall be at lease --ONE-- space in between
                     // the tag '<?xml' and the VersionInfo.
-                    //
-                    //  If we are not at line 1, col 6, then the decl was not
-                    //  the first text, so its invalid.
-                    const XMLReader* curReader = fReaderMgr.getCurrentReader();
-                    if ((curReader->getLineNumber() != 1)
-                    ||  (curReader->getColumnNumber() != 7))
+                    if (!atStart)
                     {
                         emitError(XMLErrs::XMLDeclMustBeFirst);
                     }
@@ -1625,10 +1625,16 @@ bool XMLScanner::checkXMLDecl(bool startWithAngle) {
     if (startWithAngle) {
         if (fReaderMgr.peekString(XMLUni::fgXMLDeclString)) {
             if (fReaderMgr.skippedString(XMLUni::fgXMLDeclStringSpace)
-               || fReaderMgr.skippedString(XMLUni::fgXMLDeclStringHTab)
-               || fReaderMgr.skippedString(XMLUni::fgXMLDeclStringLF)
-               || fReaderMgr.skippedString(XMLUni::fgXMLDeclStringCR))
+               || fReaderMgr.skippedString(XMLUni::fgXMLDeclStringHTab))
             {
+                return true;
+            }
+            // Let the reader consume a line break so that it is counted
+            if (fReaderMgr.peekString(XMLUni::fgXMLDeclStringLF)
+               || fReaderMgr.peekString(XMLUni::fgXMLDeclStringCR))
+            {
+                fReaderMgr.skippedString(XMLUni::fgXMLDeclString);
+                fReaderMgr.skippedSpace();
                 return true;
             }
         }
@@ -1646,10 +1652,16 @@ bool XMLScanner::checkXMLDecl(bool startWithAngle) {
     else {
         if (fReaderMgr.peekString(XMLUni::fgXMLString)) {
             if (fReaderMgr.skippedString(XMLUni::fgXMLStringSpace)
-               || fReaderMgr.skippedString(XMLUni::fgXMLStringHTab)
-               || fReaderMgr.skippedString(XMLUni::fgXMLStringLF)
-               || fReaderMgr.skippedString(XMLUni::fgXMLStringCR))
+               || fReaderMgr.skippedString(XMLUni::fgXMLStringHTab))
             {
+                return true;
+            }
+            // Let the reader consume a line break so that it is counted
+            if (fReaderMgr.peekString(XMLUni::fgXMLStringLF)
+               || fReaderMgr.peekString(XMLUni::fgXMLStringCR))
+            {
+                fReaderMgr.skippedString(XMLUni::fgXMLString);
+                fReaderMgr.skippedSpace();
                 return true;
             }
         }
